@@ -117,6 +117,7 @@ void init_macros(void);
 void define_macro(char *name, char *buf);
 void undef_macro(char *name);
 Token *preprocess(Token *tok);
+Token *preprocess_only(Token *tok);
 
 //
 // parse.c
